@@ -214,6 +214,35 @@ def check(ctx):
     ctx.rule("C04.R7", "a method / property registered as serialized method or serializer is invoked through the instance, by name: an override in a subclass is what gets serialized", floor=3)
     late_binding_rule(ctx, "C04.R7")
 
+    # ---------------- R8: metadata given through Annotated
+    ctx.rule("C04.R8", "field metadata can be given through Annotated[...]: a key that ObjectField reads from the field's own `metadata` only must be one the visitors consume when they visit the Annotated type itself (conversion, schema, validators); every other key (skip, ...) is read through `full_metadata`, or it is silently ignored when written in Annotated", floor=3)
+    consumed = set()
+    for fi in model.functions.values():
+        if fi.name != "annotated" or fi.cls is None:
+            continue
+        for n in ast.walk(fi.node):
+            if isinstance(n, ast.Name) and n.id.endswith("_METADATA"):
+                consumed.add(n.id)
+    ctx.require(len(consumed) >= 3, f"metadata keys consumed by the annotated() hooks: {sorted(consumed)}")
+    of_cls = model.cls("apischema.objects.fields.ObjectField")
+    own_only = {}
+    for m in of_cls.methods.values():
+        for n in ast.walk(m.node):
+            key = None
+            if isinstance(n, ast.Call) and isinstance(n.func, ast.Attribute) and n.func.attr == "get" and norm(n.func.value) == "self.metadata" and n.args and isinstance(n.args[0], ast.Name):
+                key = n.args[0].id
+            elif isinstance(n, ast.Subscript) and norm(n.value) == "self.metadata" and isinstance(n.slice, ast.Name):
+                key = n.slice.id
+            elif isinstance(n, ast.Compare) and len(n.ops) == 1 and isinstance(n.ops[0], (ast.In, ast.NotIn)) and isinstance(n.left, ast.Name) and norm(n.comparators[0]) == "self.metadata":
+                key = n.left.id
+            if key and key.endswith("_METADATA"):
+                own_only.setdefault(key, (m, n))
+    ctx.require(len(own_only) >= 2, "ObjectField: keys read from self.metadata not found")
+    for key, (m, n) in sorted(own_only.items()):
+        ctx.check(key in consumed, "C04.R8", f"{of_cls.qualname}:{key}", None,
+                  f"`{short(n, 60)}` ({m.name}) reads {key} from the field's own metadata, and no annotated() hook consumes that key: `x: Annotated[int, skip(serialization_default=True)] = 0` is accepted and ignored - the default is serialized although its omission was asked for",
+                  m, n, detail=f"{key} consumed by annotated() hooks" )
+
 
 def late_binding_rule(ctx, rule):
     """apischema.methods.method_wrapper: each wrapper returns `getattr(self, name)` (called for methods), `name` being the
@@ -321,6 +350,7 @@ def passthrough_rule(ctx):
 
 
 def mutants(mb):
+    mb.add_text("skip-own-metadata-only", "apischema/objects/fields.py", "        return self.full_metadata.get(SKIP_METADATA, SkipMetadata())\n", "        return self.metadata.get(SKIP_METADATA, SkipMetadata())\n", "C04.R8", "SKIP_METADATA")
     MW = "apischema/methods.py"
     mb.add_text("wrapper-calls-fget", MW, "            assert name is not None\n            return getattr(self, name)\n", "            return method.fget(self)\n", "C04.R7", "wrapper#0")
     mb.add_text("wrapper-calls-method", MW, "                assert name is not None\n                return getattr(self, name)(*args, **kwargs)\n", "                return method(self, *args, **kwargs)\n", "C04.R7", "wrapper#2")
